@@ -15,12 +15,14 @@ FormsOf(cp) ==
   \cup {"U8", "xb"}
   \cup (IF cp \in {45, 93, 46, 92, 94} THEN {"bs"} ELSE {})
   \cup (IF cp \in {9, 10, 13} THEN {"ctl"} ELSE {})
-CPs == {9, 10, 45, 46, 48, 57, 65, 75, 83, 92, 93, 94, 95, 97, 107, 115, 122, 127, 128, 233, 255, 383, 8490, 119070, 1114111}
+CPs == {1, 9, 10, 45, 46, 48, 57, 65, 75, 83, 92, 93, 94, 95, 97, 107, 115, 122, 127, 128, 233, 254, 255, 383, 8490, 119070, 1114110, 1114111}
 Chars == UNION { { Ch(cp, f) : f \in FormsOf(cp) } : cp \in CPs }
 Rng(lo, flo, hi, fhi) == [k |-> "range", lo |-> lo, hi |-> hi, flo |-> flo, fhi |-> fhi]
 Ranges == { Rng(97, "raw", 122, "raw"), Rng(65, "raw", 90, "x2"), Rng(48, "raw", 57, "raw"), Rng(97, "u4", 107, "raw"),
             Rng(107, "raw", 115, "raw"), Rng(128, "x2", 255, "x2"), Rng(233, "raw", 383, "u4"), Rng(0, "x2", 1114111, "U8"),
-            Rng(75, "raw", 8490, "u4"), Rng(45, "bs", 48, "raw"), Rng(200, "oct", 255, "oct") }
+            Rng(75, "raw", 8490, "u4"), Rng(45, "bs", 48, "raw"), Rng(200, "oct", 255, "oct"),
+            (* one short of either end of the code space (rune and byte mode): the gap a complement has to fill is one code point wide *)
+            Rng(0, "x2", 1114110, "U8"), Rng(0, "x2", 254, "x2"), Rng(1, "x2", 1114111, "U8"), Rng(1, "oct", 255, "x2") }
 Escs == { [k |-> "esc", name |-> n] : n \in {"d", "D", "w", "W", "s", "S"} }
 Props == { [k |-> "prop", name |-> n, style |-> s] : n \in {"Lu", "Ll", "L", "Nd"}, s \in {"p", "P", "pneg", "Pneg"} }
 Items == Chars \cup Ranges \cup Escs \cup Props \cup { [k |-> "dot"] }
